@@ -117,7 +117,7 @@ def m_box_new(ex, c, a, m):
 @model(r'Arc::<.+>::new|std::sync::RwLock::<.+>::new|std::sync::Mutex::<.+>::new|<Arc<.+> as From<.+>>::from|RwLock::<.+>::new|async_std::sync::RwLock::<.+>::new')
 def m_arc_new(ex, c, a, m):
     v = a[0]
-    if 'RwLock' in c.split('::new')[0] and not c.startswith('Arc'):
+    if ('RwLock' in c.split('::new')[0] or 'Mutex' in c.split('::new')[0]) and not c.startswith('Arc'):
         return ArcObj(v, 'lock')
     if isinstance(v, ArcObj) and v.tag == 'lock':
         return v              # Arc<RwLock<T>> : one identity
@@ -129,6 +129,24 @@ def m_arc_new(ex, c, a, m):
 @model(r'<Arc<.+> as Clone>::clone')
 def m_arc_clone(ex, c, a, m):
     return d(a[0])
+
+
+@model(r'<(str|String|\[u8\]|Vec<u8>) as Index(Mut)?<RangeFull>>::index(_mut)?')
+def m_index_full(ex, c, a, m):
+    return a[0]
+
+
+@model(r'Arc::<.+>::make_mut')
+def m_arc_make_mut(ex, c, a, m):
+    # clone-on-write: the engine keeps no reference counts, so it always takes the cloning branch (the two branches differ
+    # only in identity, which Arc::ptr_eq alone could observe)
+    r = a[0]
+    arc = d(r)
+    if not isinstance(arc, ArcObj) or not isinstance(r, Ref):
+        raise Unmodelled('Arc::make_mut on %r' % (arc,))
+    fresh = ArcObj(copyval(arc.cell[0]), arc.tag)
+    r.set(fresh)
+    return Ref(fresh.cell, 0)
 
 
 @model(r'Arc::<.+>::ptr_eq')
@@ -187,7 +205,31 @@ def m_rwlock(ex, c, a, m):
     return Ok(_acquire(ex, lock, 'w' if m.group(1) == 'write' else 'r'))
 
 
-@model(r'<std::sync::RwLock(Read|Write)Guard<.+> as Deref(Mut)?>::deref(_mut)?|<async_std::sync::RwLock(Read|Write)Guard<.+> as Deref(Mut)?>::deref(_mut)?')
+@model(r'std::sync::Mutex::<.+>::lock')
+def m_mutex_lock(ex, c, a, m):
+    # std::sync::Mutex = the exclusive half of the lock model (yield point before the acquisition; a second acquisition by
+    # the holder is the documented deadlock/panic)
+    lock = d(a[0])
+    if not isinstance(lock, ArcObj):
+        raise Unmodelled('lock object %r' % (lock,))
+    return Ok(_acquire(ex, lock, 'w'))
+
+
+@model(r'<Arc<(std::sync::)?(Mutex|RwLock)<(.+)>> as Default>::default|<(std::sync::)?(Mutex|RwLock)<(.+)> as Default>::default')
+def m_lock_default(ex, c, a, m):
+    inner = m.group(3) or m.group(6)
+    if inner.startswith(('HashSet<', 'HashMap<', 'std::collections::HashSet<', 'std::collections::HashMap<')):
+        return ArcObj(SymMap(), 'lock')
+    if inner.startswith(('String', 'Vec<')):
+        return ArcObj(S(), 'lock')
+    if inner in ('u64', 'usize', 'i64'):
+        return ArcObj(z3.BitVecVal(0, 64), 'lock')
+    if inner == 'bool':
+        return ArcObj(False, 'lock')
+    raise Unmodelled('Default for lock of %s' % inner)
+
+
+@model(r'<std::sync::MutexGuard<.+> as Deref(Mut)?>::deref(_mut)?|<std::sync::RwLock(Read|Write)Guard<.+> as Deref(Mut)?>::deref(_mut)?|<async_std::sync::RwLock(Read|Write)Guard<.+> as Deref(Mut)?>::deref(_mut)?')
 def m_guard_deref(ex, c, a, m):
     g = d(a[0])
     return Ref(g.lock.cell, 0)
